@@ -29,6 +29,12 @@ def main():
             shutil.copy(f"{src}/{f}", f"{dst}/{f}")
     tmp = tempfile.mkdtemp(prefix=f"sd-{pid}-")
     meta = {"property": pid, "ran": [], "at": time.strftime("%Y-%m-%d %H:%M:%S")}
+    prev = json.load(open(f"{dst}/meta.json")) if os.path.exists(f"{dst}/meta.json") else {}
+    for k in ("suite", "needs", "note", "first_detection"):
+        if k in prev:
+            meta[k] = prev[k]
+    if prev.get("detection") and "first_detection" not in meta:
+        meta["first_detection"] = prev["detection"]
     try:
         clean, pat = f"{tmp}/clean", f"{tmp}/patched"
         for d in (clean, pat):
